@@ -574,3 +574,46 @@ func TestWitness_C04_SetRelationsIntoOwnTable(t *testing.T) {
 		t.Fatal("valid SetRelations did not change the target")
 	}
 }
+
+// C16 (and C03): a creation that is rejected after its archetype was created must not leave an
+// archetype without table behind: Reset and queries over all entities index table 0 of every
+// relation-free archetype. Before the repair Reset panicked half-way (index and pool already
+// cleared, tables not) and a later query listed a stale row next to the new entity.
+func TestWitness_C16_ResetAfterRejectedCreation(t *testing.T) {
+	w := ecs.NewWorld(2, 1)
+	idA := ecs.ComponentID[compA](w)
+	idB := ecs.ComponentID[compB](w)
+	idR := ecs.ComponentID[rel1](w)
+	u := w.Unsafe()
+	x := w.NewEntity()
+	// misuse calls that used to be rejected after createArchetype: whatever they do now (accepted and
+	// the superfluous relation ignored, or rejected), the world must stay usable
+	func() { defer func() { _ = recover() }(); u.NewEntityRel([]ecs.ID{idA}, ecs.RelID(idA, x)) }()
+	func() { defer func() { _ = recover() }(); u.NewEntityRel([]ecs.ID{idB}, ecs.RelID(idR, x)) }()
+	e := u.NewEntity(idB)
+	// a query over everything works
+	n := 0
+	q := ecs.NewUnsafeFilter(w).Query()
+	for q.Next() {
+		n++
+	}
+	if n != w.Stats().Entities.Used {
+		t.Fatalf("query over all entities visits %d, world has %d", n, w.Stats().Entities.Used)
+	}
+	w.Reset() // must not panic
+	if w.Alive(e) || w.Stats().Entities.Used != 0 {
+		t.Fatal("Reset left entities behind")
+	}
+	e2 := u.NewEntity(idB)
+	n = 0
+	q2 := ecs.NewFilter1[compB](w).Query()
+	for q2.Next() {
+		if q2.Entity() != e2 {
+			t.Fatalf("query after Reset lists %v, only %v exists", q2.Entity(), e2)
+		}
+		n++
+	}
+	if n != 1 {
+		t.Fatalf("query after Reset lists %d entities, want 1", n)
+	}
+}
